@@ -80,7 +80,10 @@ def handle (op : String) (j : Json) : Option (R Json) :=
   | "centroid" => some do
       let a ← intArr j
       let c := centroidNum a
-      pure (okJ [("num", ints #[c.1, c.2.1, c.2.2])])
+      -- the regenerated `util.centroid` (Gen.centroid through Model `centroidRC`) run at Float on the same data
+      let af : Arr Float := { s0 := a.s0, s1 := a.s1, get := fun i jj => Float.ofInt (a.get i jj) }
+      let rc := centroidRC af
+      pure (okJ [("num", ints #[c.1, c.2.1, c.2.2]), ("rc", floatsJ [rc.1, rc.2])])
   | "hex_ring" => some do
       let k ← getNat j "k"
       pure (okJ [("cells", Json.arr ((hexRing k).map cellJ).toArray)])
